@@ -2,7 +2,7 @@
    holding root.text, i.e. the slice [root.start_byte, root.end_byte) of the source; rebuild returns it. *)
 From Coq Require Import List Ascii Arith Lia.
 Import ListNotations.
-Require Import Offsets.
+From Small Require Import Offsets.
 
 Definition passthrough (src : str) (root_start root_end : nat) : str := slice src root_start root_end.
 Theorem C07_passthrough_partial src : passthrough src 0 (length src) = src.
